@@ -94,7 +94,14 @@ fn scenario(rng: &mut Rng, forced: Option<(u8, u8)>) -> Scenario {
     let mut calls = Vec::new();
     let mut stdin: Vec<u8> = Vec::new();
     let mut lines = 0;
+    let mut exhausted = false;
     for _ in 0..ncalls {
+        // a breakpoint between the services: its prompt reads the same standard input (one line, "n") -- every
+        // reader must take exactly its own line, whoever read before it
+        if forced.is_none() && !exhausted && rng.chance(1, 3) {
+            t.push_str("int 3\n");
+            stdin.extend_from_slice(b"n\n");
+        }
         let (int_no, ah) = match forced {
             Some(f) => f,
             None => match rng.below(12) {
@@ -162,6 +169,8 @@ fn scenario(rng: &mut Rng, forced: Option<(u8, u8)>) -> Scenario {
                     calls.push(Call { int_no, ah });
                     break;
                 }
+            } else {
+                exhausted = true;
             }
         }
         calls.push(Call { int_no, ah });
@@ -237,6 +246,15 @@ fn run_scenario(rep: &Report, sc: &Scenario, core: Option<usize>) {
             continue;
         }
         let int_no: u8 = r.line[4..].trim().parse().unwrap_or(0);
+        if int_no == 3 {
+            // the breakpoint's prompt takes one line ("n") of the script
+            match rest.iter().position(|b| *b == b'\n') {
+                Some(i) => rest = &rest[i + 1..],
+                None => rest = &rest[rest.len()..],
+            }
+            rep.count("breakpoint prompts between service calls", 1);
+            continue;
+        }
         let ah = (r.regs[AX] >> 8) as u8;
         if ci >= sc.calls.len() || sc.calls[ci].int_no != int_no || sc.calls[ci].ah != ah {
             rep.inconclusive("call bookkeeping");
